@@ -17,7 +17,7 @@ import random
 from harness.common import MachineryError, run_tlc, SPEC, workdir, parallel, judge_traces
 from harness.c09 import load_log_all
 from harness import tables, valtrace
-from harness.world import World, Node
+from harness.world import canon, World, Node
 from harness.tables import walk
 
 PID = "C11"
@@ -264,14 +264,28 @@ def record(kind, seed, plan):
     _CANDS[id(root)] = Node(root.children[0].name if root.children else "zz")
     tr = {"init": w.pi(ALLF + ("plink",)), "events": [], "desc": {"tree": kind, "seed": seed, "nodes": len(w.nodes)}}
     names = sorted(ops)
+    from harness.common import deadline
+    prev = canon(tr["init"], ALLF)
     for name in names + list(plan):
         reg_before = len(Node.store)
         try:
-            res = render(w, ops[name](root))
+            with deadline(60):
+                res = render(w, ops[name](root))
         except Exception as e:  # noqa: BLE001 - an exception is a result too (C04/C19 judge whether it may escape)
             res = "raised:" + type(e).__name__
-        tr["events"].append({"op": "readonly", "fn": name, "args": [], "ok": True, "ret": 0, "res": w.atoms.atom(res), "post": w.pi(ALLF + ("plink",)),
+        try:
+            with deadline(60):
+                post = w.pi(ALLF + ("plink",))
+                nodes_now = sum(1 for _ in zip(walk(root), range(200000)))
+            if nodes_now >= 200000:
+                raise MemoryError("tree no longer finite")
+        except BaseException as e:  # noqa: BLE001 - MemoryError / RecursionError / watchdog while merely LOOKING at the tree
+            tr["damaged"] = {"fn": name, "how": type(e).__name__}
+            break
+        tr["events"].append({"op": "readonly", "fn": name, "args": [], "ok": True, "ret": 0, "res": w.atoms.atom(res if len(res) < 200000 else res[:200000]), "post": post,
                              "regdelta": len(Node.store) - reg_before})
+        if canon(post, ALLF) != prev or post["plink"] != tr["init"]["plink"]:
+            break          # the call changed the tree: TLC reports it; further calls on a damaged structure (a node listed twice, a cycle) prove nothing and may not end
     return tr
 
 
@@ -311,6 +325,11 @@ def run(rep, tier, seed):
     rep.cov["transitions"] += rr.generated or 0
     rep.cov["traces_validated_against_impl"] = len(traces)
     nev = sum(len(tr["events"]) for tr in traces)
+    for tr in traces:
+        if tr.get("damaged"):
+            d = tr["damaged"]
+            rep.violation(f"{PID}:{d['fn']}:mutates:structure-damaged", f"after the read-only call {d['fn']} on a {tr['desc']} tree the tree cannot be projected any more ({d['how']}): a node listed twice, a cycle or unbounded growth",
+                          {"kind": "readonly", "desc": tr["desc"], "call": d["fn"], "clause": "structure-damaged"})
     for rj in rejects:
         tr = traces[rj["trace"] - 1]
         e = tr["events"][rj["event"] - 1]
